@@ -460,18 +460,12 @@ def filter_dead_code_nodes(graph: G, entry_node: ProgramNode) -> G:
     Returns:
         The graph without the pruned dead nodes
     """
-    has_changed = True
-    while has_changed:
-        # Do this until we have reached a fixed point, i.e., removed all dead
-        # nodes from the graph.
-        has_changed = False
-        for node in graph.nodes:
-            if node != entry_node and not graph.get_predecessors(node):
-                # The only node in the graph that is allowed to have no predecessor
-                # is the entry node. All other nodes without predecessors are considered
-                # dead code and thus removed.
-                graph.graph.remove_node(node)
-                has_changed = True
+    # Everything that cannot be reached from the entry node is dead code.  Looking only for
+    # nodes without predecessors is not sufficient: an unreachable loop (e.g., in an exception
+    # handler that the compiler kept although its try block cannot raise) keeps itself alive.
+    reachable = nx.descendants(graph.graph, entry_node)
+    reachable.add(entry_node)
+    graph.graph.remove_nodes_from([node for node in graph.nodes if node not in reachable])
     return graph
 
 
@@ -677,7 +671,9 @@ class CFG(ProgramGraph):
         exit_nodes.update(
             loop_entry
             for cycle in nx.simple_cycles(cfg.graph)
-            if cfg.get_descendants(
+            # A cycle in dead code is not reachable from the entry point; it is pruned later.
+            if cycle[0] in distances_to_entry_point
+            and cfg.get_descendants(
                 loop_entry := min(cycle, key=lambda node: distances_to_entry_point[node])
             ).isdisjoint(exit_nodes)
         )
